@@ -1,6 +1,7 @@
 package props
 
 import (
+	"calcsa/engines/bcai"
 	"calcsa/engines/enc"
 	"calcsa/engines/grammar"
 	"calcsa/engines/lexfsm"
@@ -16,6 +17,8 @@ func init() {
 	RegisterEngine(&Engine{Name: "lexfsm", Run: lexfsm.Run})
 	engineKinds["lexfsm"] = "finite-automaton extraction by abstract interpretation of the lexer's SSA; symbolic effect of one Lexer.Next iteration"
 
+	RegisterEngine(&Engine{Name: "bcai", Run: bcai.Run})
+	engineKinds["bcai"] = "abstract interpretation of the compiler: every byteCode method over opaque children answered from tabulated summaries (node type x flag context x operand slot), code segment as item list with symbolic labels; stack, tmp and jump simulation of the emitted code"
 	RegisterEngine(&Engine{Name: "enc", Run: enc.Run})
 	engineKinds["enc"] = "bit-field decomposition of the symbolically evaluated encoder / decoder functions; writer and reader compared field by field"
 	RegisterEngine(&Engine{Name: "own", Run: own.Run})
